@@ -530,6 +530,9 @@ func (e *Explorer) intrinsic(it *Interp, name string, args []Value) Value {
 		e.siteBit = map[string]int{}
 		e.schedEpoch++
 		return nil
+	case "vnScheduleRestart":
+		e.siteInst = map[string]int{}
+		return nil
 	case "vnCut":
 		it.cuts[args[0].(string)] = true
 		return nil
